@@ -210,3 +210,46 @@ package driver
 //@   props C20 C10
 //@   requires cfgmaps != nil && cfgmaps.impl != nil
 //@   ensures [result-iff-no-error] err != nil ==> result == nil
+
+// ---- C20 / C10: listing and querying stored records — a record that does not decode is skipped
+// (never dereferenced), the others are returned; no nil release is ever handed back
+
+//@ func (*Secrets).List
+//@   props C20 C10
+//@   requires secrets != nil && secrets.impl != nil
+//@   ensures [no-nil-results] forall q int :: 0 <= q && q < len(result0) ==> result0[q] != nil
+//@   loop 1 invariant [no-nil-results] forall q int :: 0 <= q && q < len(results) ==> results[q] != nil
+
+//@ func (*Secrets).Query
+//@   props C20 C10
+//@   requires secrets != nil && secrets.impl != nil
+//@   ensures [no-nil-results] forall q int :: 0 <= q && q < len(result0) ==> result0[q] != nil
+//@   loop 2 invariant [no-nil-results] forall q int :: 0 <= q && q < len(results) ==> results[q] != nil
+
+//@ func (*ConfigMaps).List
+//@   props C20 C10
+//@   requires cfgmaps != nil && cfgmaps.impl != nil
+//@   ensures [no-nil-results] forall q int :: 0 <= q && q < len(result0) ==> result0[q] != nil
+//@   loop 1 invariant [no-nil-results] forall q int :: 0 <= q && q < len(results) ==> results[q] != nil
+
+//@ func (*ConfigMaps).Query
+//@   props C20 C10
+//@   requires cfgmaps != nil && cfgmaps.impl != nil
+//@   ensures [no-nil-results] forall q int :: 0 <= q && q < len(result0) ==> result0[q] != nil
+//@   loop 2 invariant [no-nil-results] forall q int :: 0 <= q && q < len(results) ==> results[q] != nil
+
+//@ func GetSystemLabels
+//@   props C10
+//@   ensures [the-table] result == systemLabels
+
+//@ func isSystemLabel
+//@   props C10
+//@   loop 1 invariant [not-among-the-first] #range == systemLabels && (forall j int :: 0 <= j && j < #iter ==> systemLabels[j] != key)
+//@   ensures [system-keys] result == (key == "name" || key == "owner" || key == "status" || key == "version" || key == "createdAt" || key == "modifiedAt")
+
+//@ func filterSystemLabels
+//@   props C10
+//@   ensures [user-labels-only] result != nil && (forall k string :: has(result, k) <==> has(lbs, k) && !(k == "name" || k == "owner" || k == "status" || k == "version" || k == "createdAt" || k == "modifiedAt"))
+//@   ensures [values-kept] forall k string :: has(result, k) ==> result[k] == lbs[k]
+//@   loop 1 invariant [visited-are-keys] forall k string :: #done[k] ==> has(lbs, k)
+//@   loop 1 invariant [so-far] result != nil && fresh(result) && (forall k string :: has(result, k) <==> #done[k] && !(k == "name" || k == "owner" || k == "status" || k == "version" || k == "createdAt" || k == "modifiedAt")) && (forall k string :: has(result, k) ==> result[k] == lbs[k])
